@@ -15,7 +15,8 @@
 //	n.BuildBlock(parent, txs, forkID)      next block on parent containing exactly txs (no miner
 //	                                       filtering: conflicting / unknown-input transactions are
 //	                                       included as given); cached by (parent, tx ids, forkID)
-//	n.SignedTransfer(from, ins, outs, salt) TransferAsset signed by one harness key
+//	n.SignedTransfer(from, ins, outs, salt) TransferAsset signed by one harness key (SignedTransferInputs:
+//	                                       explicit Sequence per input)
 //	n.ProcessBlock(b) (inMain, orphan, err) BlockChain.ProcessBlock on a private copy of b
 //	n.Tip() / Height() / BlockHashAt(h) / ActiveChain()
 //	n.Submit(tx) / PoolHashes() / PoolTxs() mempool access (TxPool.AppendToTxPoolWithoutEvent)
@@ -509,12 +510,23 @@ func (n *Node) SignedTransfer(from *account.Account, ins []common2.OutPoint, out
 
 // SignedTransfer is the node-independent form.
 func SignedTransfer(from *account.Account, ins []common2.OutPoint, outs []Out, salt uint32) interfaces.Transaction {
+	inputs := make([]common2.Input, 0, len(ins))
+	for _, op := range ins {
+		inputs = append(inputs, common2.Input{Previous: op, Sequence: 0})
+	}
+	return SignedTransferInputs(from, inputs, outs, salt)
+}
+
+// SignedTransferInputs is SignedTransfer with explicit inputs (outpoint + Sequence), for
+// transactions that refer to the same outpoint under different sequence numbers.
+func SignedTransferInputs(from *account.Account, ins []common2.Input, outs []Out, salt uint32) interfaces.Transaction {
 	Setup()
 	nonce := make([]byte, 8)
 	binary.BigEndian.PutUint32(nonce[4:], salt)
 	inputs := make([]*common2.Input, 0, len(ins))
-	for _, op := range ins {
-		inputs = append(inputs, &common2.Input{Previous: op, Sequence: 0})
+	for _, in := range ins {
+		c := in
+		inputs = append(inputs, &c)
 	}
 	outputs := make([]*common2.Output, 0, len(outs))
 	for _, o := range outs {
